@@ -215,6 +215,16 @@ def c05(ctx):
             continue          # the complementary branch is checked through its sibling
         ctx.check('tight', c == 0, _ob_site(e), 'the capacity test is off by %d: the decoder %s' %
                   (c, 'refuses texts that would fit' if c > 0 else 'accepts texts that do not fit'))
+    # the decoded length and the byte under construction are counted without wrap-around
+    wraps = {}
+    for t in ts:
+        for e in t.events:
+            if e['fn'] in decoders and e['k'] == 'wrap':
+                wraps[(e['line'], e['fn'])] = e
+    for (line, fn), e in sorted(wraps.items()):
+        ctx.check('no-wrap', False, _ob_site(e), 'a counter of the %s decoder may wrap around (%s of %s in [%s, %s]): the decoded length is then not the number of bytes decoded'
+                  % (fn, e.get('op'), e.get('value'), e.get('lo'), e.get('hi')))
+    ctx.instance('no-wrap', len(decoders))
     if not cmps:
         raise AnalysisBroken('no capacity comparison found in the buffer decoders: the tightness rule would be vacuous')
     ctx.extra['capacity_comparisons'] = len(cmps)
@@ -303,8 +313,11 @@ def c04(ctx):
     RO = E['CAT_VAR_ACCESS_READ_ONLY']
     # no wrap-around / overflow while accumulating
     seen = {}
+    bdec0 = _byte_decoders(ts)
     for t in ts:
         for e in t.events:
+            if e['fn'] in bdec0:
+                continue          # the byte-buffer decoders are C05's subject
             if e['k'] == 'wrap' and e.get('op') in ('*', '<<', '+') and len(e['stack']) >= 3:
                 seen[(e['line'], e['fn'], 'wrap')] = e
             if e['k'] == 'ob' and e['ob'] in ('sovf', 'shift', 'shift-neg') and len(e['stack']) >= 3:
@@ -379,6 +392,9 @@ def c06(ctx):
             c = consumed_char(t)
             if c is None or c == ('const', 10) or c == ('const', 13) or (c[0] == 'set' and c[1] <= {10, 13}):
                 continue
+            # a step that may also have consumed a line end (paths merged because they end alike) says
+            # nothing about argument bytes
+            may_end = (c[0] == 'not' and not ({10, 13} <= set(c[1]))) or (c[0] == 'set' and (c[1] & {10, 13})) or c[0] == 'any'
             ln = t.pre.mem.get(('S', 'length'))
             ch = t.raw.mem.get(('S', 'current_char'))
             # the byte handed on is the byte read: no case folding in the argument state
@@ -396,6 +412,9 @@ def c06(ctx):
                 ctx.check('tight', cap is not None and t.raw.facts.le(ln.addc(2).sub(cap), 0) is True, t.site(),
                           'a byte is accepted without room for it and its terminator')
             elif t.to.endswith('STATE_ERROR'):
+                if may_end:
+                    continue
+                ctx.extra['rejections_checked'] = ctx.extra.get('rejections_checked', 0) + 1
                 cap = ex.model.region_cap(('BUF',), t.raw, m.ms.it)
                 # rejected for lack of room: only if byte + NUL really do not fit
                 if cap is not None and is_lin(ln):
@@ -416,6 +435,8 @@ def c06(ctx):
             ctx.check('argc', cval(t.raw.mem.get(('S', 'index'))) == 0 and cval(t.raw.mem.get(('S', 'position'))) == 0, t.site(), 'decoding does not start at variable 0 / offset 0')
         if t.to.endswith('WRITE_LOOP') and t.frm.endswith('PARSE_COMMAND_ARGS'):
             ctx.check('argc', cval(t.raw.mem.get(('S', 'index'))) == 0, t.site(), 'a command without variables reports a non-zero argument count')
+    if not ctx.extra.get('rejections_checked'):
+        raise AnalysisBroken('no rejection of an argument byte found: the tightness rule would be vacuous')
     if n_store == 0:
         raise AnalysisBroken('no byte-appending transition found in the argument state')
     # arguments of the handler calls
